@@ -64,7 +64,8 @@ def unescape_default(s):
 
 class C17(Prop):
     ID = "C17"
-    LEVEL = "proof (consumer side: type check sound w.r.t. evaluation; regenerated trees well-formed) + exploration (premise: published values conform, counters, caps, idempotence)"
+    LEVEL = "proof"
+    LEVEL_DETAIL = "proof (consumer side: type check sound w.r.t. evaluation; regenerated trees well-formed) + exploration (premise: published values conform, counters, caps, idempotence)"
     COQ_TARGETS = ["theories/Properties/C17.vo"]
     MODEL_TARGETS = ["theories/Model/ModuleTypes.vo", "theories/Model/ModuleTrees.vo", "theories/Model/ModuleTypesCase.vo"]
     CASE_HEADER = ("From Coq Require Import String.\nFrom Boreal Require Import Base.Prelude Base.Res Model.ModuleTypes "
